@@ -151,6 +151,8 @@ FLOAT_INSTANCE = {"ltb": "PrimFloat.ltb", "leb": "PrimFloat.leb", "eqb": "PrimFl
 
 
 def mangle(name):
+    if "." in name:                       # a global cell (class attribute) declared by the spec
+        return "g_" + name.replace(".", "_")
     if name in RESERVED or name.startswith(("h_", "f_", "o_", "c_", "e_", "tmp_", "Build_")) \
             or name.endswith(("_gen", "_body", "_f")) or "__" in name or re.search(r"_[lw]\d+$", name):
         return name.replace("__", "_u_") + "_v"
@@ -309,16 +311,29 @@ class HeapFn:
             if not (isinstance(d, ast.Name) and d.id in ("staticmethod", "classmethod")):
                 raise Unsupported("decorator", d, self.qual)
         names = [x.arg for x in a.args]
+        self.params = []
         if cls and not any(isinstance(d, ast.Name) and d.id == "staticmethod" for d in node.decorator_list):
             self.selfname = names[0] if names else None
             names = names[1:]
+            if fspec.get("self") and self.selfname:      # the method's own object is an object of the store
+                self.params.append((self.selfname, pt(fspec["self"])))
+                self.selfname = None
         else:
             self.selfname = None
-        self.params = []
+        # prefix mode: only the first k statements of the body (after the docstring) are translated, as a function of
+        # the parameters the spec types; what follows them in the source is NOT translated
+        self.prefix = fspec.get("statements") if fspec.get("mode") == "prefix" else None
         for p in names:
             if p not in fspec.get("params", {}):
+                if self.prefix is not None:
+                    continue
                 raise Unsupported("parameter %s has no type in the spec" % p, node, self.qual)
             self.params.append((p, pt(fspec["params"][p])))
+        # global cells: class attributes read / written through the class name (`Individual.counter`)
+        self.globals = [(g, pt(t)) for g, t in fspec.get("globals", [])]
+        for g, t in self.globals:
+            if not re.fullmatch(r"[A-Za-z_]\w*\.[A-Za-z_]\w*", g) or t not in ("nat", "Z"):
+                raise Unsupported("global cell %r: `Class.attribute` of type nat / Z expected" % g, node, self.qual)
         self.lwrites = list(fspec.get("writes", []))       # list parameters modified in place
         for w in self.lwrites:
             if w not in names or not is_list(dict(self.params)[w]):
@@ -333,15 +348,25 @@ class HeapFn:
                 raise Unsupported("calls: %s is not a function translated before this one" % q, node, self.qual)
         # heap fields this function (or a callee) writes / only reads although some function writes them
         self.wfields, self.rfields = self._field_use()
-        self.fuel = has_while(node.body) or any(done[q].fuel for q in self._callees())
+        self.fuel = has_while(self.body_stmts()) or any(done[q].fuel for q in self._callees())
         self.defs, self.nloop, self.nwhile, self.ntmp = [], 0, 0, 0
         self.used_ops, self.used_lits = set(), {}
         self.pre = None
 
+    def body_stmts(self):
+        body = list(self.node.body)
+        if self.prefix is None:
+            return body
+        if body and isinstance(body[0], ast.Expr) and isinstance(body[0].value, ast.Constant) and isinstance(body[0].value.value, str):
+            body = body[1:]
+        if not isinstance(self.prefix, int) or self.prefix < 1 or len(body) < self.prefix:
+            raise Unsupported("prefix mode: the function has fewer than %r statements" % (self.prefix,), self.node, self.qual)
+        return body[:self.prefix]
+
     # ---------------------------------------------------------------------------------- pre-pass
     def _callees(self):
         out = []
-        for n in ast.walk(self.node):
+        for n in (m for st in self.body_stmts() for m in ast.walk(st)):
             if isinstance(n, ast.Call):
                 d = dotted(n.func)
                 if d in self.calls and self.calls[d] not in out:
@@ -350,7 +375,8 @@ class HeapFn:
 
     def _field_use(self):
         w, r = [], []
-        for n in ast.walk(self.node):
+        nodes = [m for st in self.body_stmts() for m in ast.walk(st)]
+        for n in nodes:
             tg = []
             if isinstance(n, ast.Assign):
                 tg = n.targets
@@ -369,7 +395,7 @@ class HeapFn:
                 if k not in w:
                     w.append(k)
         self.heap.written.update(w)
-        for n in ast.walk(self.node):
+        for n in nodes:
             fo = field_of(n, self.heap) if isinstance(n, (ast.Attribute, ast.Subscript)) else None
             if fo and fo[1] not in w and fo[1] in self.heap.written and fo[1] not in r:
                 r.append(fo[1])
@@ -404,11 +430,13 @@ class HeapFn:
         return nm
 
     def result_items(self, value, env):
-        return [value] + [mangle(w) for w in self.lwrites] + [self.hvar(k) for k in self.wfields]
+        return [value] + [mangle(w) for w in self.lwrites] + [self.hvar(k) for k in self.wfields] \
+            + [mangle(g) for g, _ in self.globals]
 
     def result_type(self):
         ts = [coq_type(self.ret_type)] + [coq_type(dict(self.params)[w]) for w in self.lwrites] \
-            + ["(nat -> %s)" % coq_type(self.heap.field(k)[1]) for k in self.wfields]
+            + ["(nat -> %s)" % coq_type(self.heap.field(k)[1]) for k in self.wfields] \
+            + [coq_type(t) for _, t in self.globals]
         return prod_type(ts)
 
     def state_type(self, name, env):
@@ -529,6 +557,8 @@ class HeapFn:
                 return self.field_read(fo[0], fo[1], env, n)
             if isinstance(n, ast.Attribute):
                 d = dotted(n)
+                if d in env and "." in d:                  # a declared global cell
+                    return mangle(d), env[d]
                 if d == "math.inf":
                     if not self.heap.ext or not self.mod.imports_math:
                         raise self.err("math.inf (needs \"ext\": true in the spec and a module-level `import math`)", n)
@@ -804,6 +834,8 @@ class HeapFn:
             (x, v), pre = self.with_pre(f)
             h = self.hvar(key)
             return self.wrap(pre, "let %s := h_upd %s %s %s in\n%s" % (h, h, x, v, nxt(env)))
+        if isinstance(tg, ast.Attribute) and dotted(tg) in dict(self.globals):
+            tg = ast.copy_location(ast.Name(id=dotted(tg), ctx=ast.Store()), tg)
         if isinstance(tg, ast.Name):
             self.check_target(tg.id, st)
             want = env.get(tg.id, self.local_types.get(tg.id))
@@ -873,6 +905,8 @@ class HeapFn:
             (x, v), pre = self.with_pre(f)
             h = self.hvar(key)
             return self.wrap(pre, "let %s := h_upd %s %s %s in\n%s" % (h, h, x, v, nxt(env)))
+        if isinstance(tg, ast.Attribute) and dotted(tg) in dict(self.globals):
+            tg = ast.copy_location(ast.Name(id=dotted(tg), ctx=ast.Store()), tg)
         if isinstance(tg, ast.Name):
             if tg.id not in env:
                 raise self.err("augmented assignment to an unbound name %s" % tg.id, st)
@@ -1294,6 +1328,8 @@ class HeapFn:
     # ---------------------------------------------------------------------------------- function
     def translate(self):
         env = {p: t for p, t in self.params}
+        for g, t in self.globals:
+            env[g] = t
         self.loop_k, self.protected, self.nested_ok, self.loop_vars, self.in_loop = None, set(), set(), [], False
         self.ctx_fn, self.ctx_while, self.narrowed = True, None, []
 
@@ -1301,11 +1337,13 @@ class HeapFn:
             if self.ret_type != "unit":
                 raise self.err("control can fall off the end of a function that returns %s" % (self.ret_type,))
             return "h_ret %s" % tuple_of(self.result_items("tt", e))
-        body = self.block(self.node.body, env, K(final, cheap=True))
+        body = self.block(self.body_stmts(), env, K(final, cheap=True))
         params = ["(%s : %s)" % (mangle(p), coq_type(t)) for p, t in self.params]
         order = [f[0] for f in self.heap.fields]
         for key in sorted(self.wfields + self.rfields, key=order.index):
             params.append("(%s : nat -> %s)" % (self.hvar(key), coq_type(self.heap.field(key)[1])))
+        for g, t in self.globals:
+            params.append("(%s : %s)" % (mangle(g), coq_type(t)))
         if self.fuel:
             params.append("(fuel : nat)")
         self.defs.append((self.coq, "Definition %s %s : res unit %s :=\n%s." % (self.coq, " ".join(params), self.result_type(), body)))
@@ -1360,6 +1398,8 @@ def effects(stmts, fn):
         fo = field_of(t, fn.heap)
         if fo:
             add("h:" + fo[1])
+        elif isinstance(t, ast.Attribute) and dotted(t) in dict(fn.globals):
+            add(dotted(t))
         elif isinstance(t, ast.Name):
             add(t.id)
         elif isinstance(t, (ast.Tuple, ast.List)):
@@ -1459,7 +1499,8 @@ def translate_spec(repo, spec):
         ft.wfields, ft.rfields = ft._field_use()
     for ft, node, sha in fts:
         text = ft.translate()
-        parts.append("(* %s, lines %d-%d of %s, sha1 %s *)\n%s" % (ft.qual, node.lineno, node.end_lineno, spec["source"], sha, text))
+        what = ft.qual if ft.prefix is None else "the first %d statements of %s (what follows them is NOT translated)" % (ft.prefix, ft.qual)
+        parts.append("(* %s, lines %d-%d of %s, sha1 %s *)\n%s" % (what, node.lineno, node.end_lineno, spec["source"], sha, text))
     # Section context: types, operators, extension operators, literals, oracles, accessors - in this fixed order
     ops = set().union(*[ft.used_ops for ft, _, _ in fts])
     lits = {}
